@@ -21,6 +21,7 @@ declare -A CHECKS=(
  [C10-3]="C10" [C10-4]="C10 C04" [C11-3]="C11 C09" [C11-4]="C11" [C13-3]="C13" [C13-4]="C13" [C20-3]="C20" [C20-4]="C20"
  [C16-6]="C16 C04 C03" [C07-6]="C07 C02" [C02-5]="C02 C10 C07" [C02-6]="C02 C01" [C06-6]="C06 C02" [C01-5]="C01 C02" [C01-6]="C01 C07"
  [C08-5]="C08 C13" [C08-6]="C08 C15" [C11-5]="C11 C04 C10"
+ [C09-8]="C09 C15" [C17-7]="C17 C05" [C17-8]="C17 C03"
  [C03-6]="C03 C17" [C04-5]="C04 C07" [C09-6]="C09 C10" [C10-5]="C10 C04" [C10-6]="C10 C04" [C16-6]="C16 C04"
 )
 NAMES=${@:-$(ls /verif/seeded | grep -E '^C[0-9]+-[0-9]+$')}
